@@ -34,6 +34,10 @@ func TestC04FailureKinds(t *testing.T) {
 			Threshold: rapid.IntRange(1, 4).Draw(rt, "threshold"), WindowS: rapid.IntRange(2, 5).Draw(rt, "window"), Passive: true,
 			Active: rapid.Bool().Draw(rt, "active"), IntervalS: 600, TimeoutS: 1}
 		c.Life = genLife(rt, c.N, false)
+		c.Hosts = rapid.IntRange(0, lab.HostStyles-1).Draw(rt, "host_style")
+		lab.SetHostStyle(c.Hosts)
+		defer lab.SetHostStyle(0)
+		hostLabel := lab.HostStyleName()
 		H := rapid.IntRange(1, 3).Draw(rt, "handler_timeout")
 		steps := rapid.IntRange(4, 30).Draw(rt, "steps")
 		kinds := []lab.Behaviour{lab.Good, lab.Status4xx, lab.Status5xx, lab.Unreachable, lab.Interim5xx, lab.InterimGood, lab.Park, lab.Park}
@@ -209,7 +213,7 @@ func TestC04FailureKinds(t *testing.T) {
 		if nClientAborts > 0 {
 			labels = append(labels, "client-hung-up-mid-body")
 		}
-		sub.Case(map[string]any{"cfg": c, "handler_timeout_s": H, "history": fmt.Sprint(hist)}, timeoutEjections > 0, labels...)
+		sub.Case(map[string]any{"cfg": c, "handler_timeout_s": H, "history": fmt.Sprint(hist)}, timeoutEjections > 0, append(labels, hostLabel)...)
 		if viol != "" {
 			rt.Fatalf("cfg %+v handler timeout %ds history %v: %s", c, H, hist, viol)
 		}
